@@ -14,7 +14,7 @@ NSHARDS = {"quick": 32, "thorough": 64}
 BUDGET_S = {"quick": 200, "thorough": 1800}
 MIN_HITS = {
     'quick': {"key": 256, "edge_key": 87, "addr_hash": 5740, "leading_zero_hash": 1389, "addr_corrupt": 1440, "addr_len": 765, "wif_corrupt": 3584, "pub_candidate": 880, "pub_offcurve": 480, "unlock": 128, "prefix_nonzero": 5204},
-    'thorough': {"key": 23040, "addr_hash": 38860, "leading_zero_hash": 36864, "addr_corrupt": 276480, "wif_corrupt": 460800, "pub_candidate": 115200, "pub_offcurve": 61788, "unlock": 23040},
+    'thorough': {"key": 192000, "addr_hash": 24615897, "leading_zero_hash": 133747, "addr_corrupt": 1036800, "wif_corrupt": 2688000, "pub_candidate": 460800, "pub_offcurve": 246723, "unlock": 96000},
 }
 EDGE = [1, 2, 3, (ec.N - 1) // 2, (ec.N + 1) // 2, ec.N - 2, ec.N - 1]
 
@@ -301,6 +301,11 @@ def judge(ctx, case):
         s_ = ref_addr(h, p)
         if ao["string"].get("ok") != s_ or ao["hash"] != case["hash"]:
             ctx.viol("after a sequence of set_chain_params calls the address string is not Base58Check(last prefix || hash) (%s -> %s%s)" % ("non-mainnet" if p0 else "mainnet", "mainnet" if p == 0 else "non-mainnet", ", set_chain_params_impl" if case["impl"] else ""), {"got": str(ao["string"])[:100], "exp": s_, "steps": case["steps"]})
+        for fld, what in (("reparse_eq", "the address parsed back from its own string"), ("serde_eq", "the address restored from its serde JSON form")):
+            ctx.ev()
+            ctx.hit("address_value_equality")
+            if ao.get(fld, {}).get("ok") is not True:
+                ctx.viol("after a sequence of set_chain_params calls the address is not == %s" % what, {"resp": str(ao.get(fld))[:200], "steps": case["steps"]})
         for fld in ("serde_json", "serde_cbor"):
             ctx.ev()
             got = ao[fld].get("ok")
